@@ -37,7 +37,7 @@ def gen(rng, ntempl=None, allow_anon=True, branchpoints=True, xta_common=False):
         for li in range(nl):
             named = (not allow_anon) or rng.random() < 0.6
             lid = 'id%d' % (ti * 100 + li)
-            T['locs'].append(dict(id=lid, name=('L%d_%d' % (ti, li)) if named else None, inv=marker() if rng.random() < 0.5 else None,
+            T['locs'].append(dict(id=lid, name=(('_L%d_%d' if rng.random() < 0.12 else 'L%d_%d') % (ti, li)) if named else None, inv=marker() if rng.random() < 0.5 else None,      # a leading underscore is a letter to both front ends
                                   rate=marker() if rng.random() < 0.25 else None, urgent=False, committed=False))
             f = rng.random()
             if f < 0.15: T['locs'][-1]['urgent'] = True
